@@ -125,8 +125,9 @@ func (tqs *TaskQueueSet) Iterate(doFn func(queue *TaskQueue)) {
 		return
 	}
 
-	main := tqs.GetMain()
-	if main != nil {
+	// The read lock is held: do not take it again through GetMain(). A second RLock waits behind
+	// a pending writer (DoWithLock, Add, NewNamedQueue), which waits for the first one: deadlock.
+	if main, exists := tqs.Queues[tqs.MainName]; exists {
 		doFn(main)
 	}
 	// TODO sort names
